@@ -79,7 +79,7 @@ func vpH_C18_unique() {
 	}
 	ctx := context.Background()
 	var recent []string // most recent first, distinct
-	steps := vpSteps(4, 5)
+	steps := vpSteps(5, 6)
 	for k := 0; k < steps; k++ {
 		id := vpSym1("id")
 		i := vpIndexOf(recent, id)
